@@ -415,6 +415,59 @@ def writers_suite(rnd, N, findings):
     return sw
 
 
+def parallel_job(names, consent, P):
+    S, D, MM, Samples = _S()
+    posts = [D.Normal(np.zeros((2, 1)), 1.0 + i) for i in range(len(names))]
+    kw = {} if consent is None else {"overwrite_existing_files": consent}
+    try:
+        with quiet():
+            S.ParallelSampleSMP(seed=3).sample([S.RWMH(seed=5 + i) for i in range(len(names))], names, posts, proposals=P, exchange=False,
+                                               kwargs={"disable_progressbar": True}, **kw)
+        return "ok"
+    except AssertionError:
+        return "refused"
+    except FileExistsError:
+        return "refused"
+
+
+def parallel_suite(rnd, count, findings):
+    """the parallel controller is a way to start runs, too"""
+    from ..parallel import supervised
+
+    sp = Suite("C11.parallel", "ParallelSampleSMP on paths that hold finished runs (written by a first parallel run with consent): a second call without "
+               "overwrite_existing_files (default / False) must be refused and leave every file and sidecar as it is, whatever the spelling of the names "
+               "(with .h5 / .npy, or without extension: hmclab appends .h5); with consent it succeeds; SHA-256 before/after; non-trivial = all")
+    with scratch() as tmp:
+        for ci in range(count):
+            n = rnd.choice([1, 2, 3])
+            spelling = "bare" if ci == 0 else rnd.choice(["h5", "npy", "bare"])
+            names = [os.path.join(tmp, f"par{ci}_{i}" + {"h5": ".h5", "npy": ".npy", "bare": ""}[spelling]) for i in range(n)]
+            real = [nm + (".h5" if spelling == "bare" else "") for nm in names]
+            stim = {"chains": n, "names": spelling}
+            sp.case(stim, nontrivial=True, sample=stim if len(sp.samples) < 2 else None)
+            sp.count(f"names={spelling}")
+            st0, r0 = supervised(parallel_job, (names, True, 6), timeout=60, tmpdir=tmp)
+            before = [(sha(f), sha(f + ".pkl")) for f in real]
+            problems = []
+            if (st0, r0) != ("ok", "ok") or any(b[0] is None for b in before):
+                problems.append(f"the first parallel run (with consent) did not produce its files: {st0} {str(r0)[:150]}")
+            else:
+                consent = rnd.choice([None, False])
+                st1, r1 = supervised(parallel_job, (names, consent, 4), timeout=60, tmpdir=tmp)
+                after = [(sha(f), sha(f + ".pkl")) for f in real]
+                if after != before:
+                    problems.append(f"a parallel run without overwrite consent ({'default' if consent is None else 'overwrite_existing_files=False'}) changed existing "
+                                    f"{'files' if any(a[0] != b[0] for a, b in zip(after, before)) else 'sidecars'} ({spelling} names); it returned {st1} {str(r1)[:80]}")
+                elif (st1, r1) != ("ok", "refused"):
+                    problems.append(f"a parallel run on existing files without consent was not refused: {st1} {str(r1)[:150]}")
+                st2, r2 = supervised(parallel_job, (names, True, 4), timeout=60, tmpdir=tmp)
+                if (st2, r2) != ("ok", "ok"):
+                    problems.append(f"a following parallel run with consent failed: {st2} {str(r2)[:150]}")
+            if problems:
+                findings.append(Finding("C11", "ParallelSampleSMP: " + problems[0][:300], {"kind": "parallel-consent"}, {"oracle": "hash", "stimulus": stim, "problems": problems}))
+    return sp
+
+
 def run(tier, seed):
     rnd = random.Random(279470273 * (seed + 11) % (1 << 31))
     thorough = tier == "thorough"
@@ -502,7 +555,8 @@ def run(tier, seed):
                 break
     sp = paths_suite(rnd, 200 if thorough else 60, findings)
     sw = writers_suite(random.Random(seed * 104729 + 11), 120 if thorough else 40, findings)
-    return [st, sp, sw], findings
+    spar = parallel_suite(random.Random(seed * 15485863 + 11), 8 if thorough else 3, findings)
+    return [st, sp, sw, spar], findings
 
 
 def search(tier, seed, broken):
